@@ -494,6 +494,11 @@ def py_len(I, st, v, node):
     hook = I.ctx.lib_len(I, st, v, node)
     if hook is not NotImplemented:
         return hook
+    from .values import MatrixObj, RowView
+    if isinstance(v, RowView):
+        return st.obj(v.matrix).cols
+    if isinstance(v, Ref) and isinstance(st.obj(v), MatrixObj):
+        return st.obj(v).rows
     if isinstance(v, Ref):
         o = st.obj(v)
         if isinstance(o, ListObj):
@@ -587,6 +592,9 @@ def _isinstance1(I, st, v, c: ClassVal, node):
         return name in ("str", "Sequence", "object")
     if isinstance(v, tuple):
         return name in ("tuple", "Sequence", "object")
+    from .values import MatrixObj, RowView
+    if isinstance(v, RowView) or (isinstance(v, Ref) and isinstance(st.obj(v), MatrixObj)):
+        return name in ("list", "Sequence", "MutableSequence", "object")
     if isinstance(v, Ref):
         o = st.obj(v)
         if isinstance(o, ListObj):
